@@ -30,7 +30,7 @@ def quad(sp, z, x, sigma):
         return d.norm() ** 2 / (2 * sigma)
     if isinstance(sigma, (list, tuple)):
         return sum(di.norm() ** 2 / (2 * si) for di, si in zip(d, sigma))
-    return 0.5 * (d / sigma).inner(d)
+    return 0.5 * float(np.real((d / sigma).inner(d)))
 
 
 def subgrad(sp, x, p, sigma):
@@ -72,6 +72,15 @@ def check_prox(ctx, f, sp, sigma, x, comp, cfg, rng, tags, P=None):
         return None
     if 'novalue' in tags:
         return P
+    if 'complex' in tags:
+        # values of real-valued functionals on complex spaces may come back complex-typed with zero imaginary part
+        f0 = f
+
+        def f(z_, f0=f0):
+            v = f0(z_)
+            if abs(np.imag(v)) > 1e-12 * max(1.0, abs(v)):
+                raise ValueError('value of a norm-type functional is not real: %r' % (v,))
+            return float(np.real(v))
     ctx.ev('finite-at-prox')
     fp = f(p)
     if not np.isfinite(fp):
@@ -150,7 +159,7 @@ def check_prox(ctx, f, sp, sigma, x, comp, cfg, rng, tags, P=None):
             continue
         nfeas += 1
         gap1 = Fp - (fz + quad(sp, z, x, sigma))
-        gap2 = fp + g.inner(z - p) - fz
+        gap2 = fp + np.real(g.inner(z - p)) - fz
         sc2 = max(1.0, abs(fp), abs(fz), g.norm() * (z - p).norm())
         worst_obj = max(worst_obj, gap1 / scale)
         worst_sub = max(worst_sub, gap2 / sc2)
@@ -207,7 +216,7 @@ def check_nonexpansive(ctx, P, sp, comp, cfg, rng, sigma):
         y = functab.rand_el(sp, rng, 1.5) if k else x + functab.rand_el(sp, rng, 1e-3)
         px, py = P(x), P(y)
         lhs = (px - py).norm() ** 2
-        rhs = (px - py).inner(x - y)
+        rhs = float(np.real((px - py).inner(x - y)))
         if lhs > rhs + 1e-9 * max(1.0, abs(rhs), lhs):
             ctx.violation(comp, cfg, 'not-the-minimiser', symptom='not-firmly-nonexpansive', lhs=float(lhs), rhs=float(rhs))
             return
@@ -244,7 +253,9 @@ def scipy_minimiser(ctx, f, sp, sigma, x, p, comp, cfg):
 def sigma_classes(fname, sp, rng):
     yield 'scalar0.3', 0.3
     yield 'scalar1.7', 1.7
-    if fname in ELEMENT_SIGMA and not util.is_pspace(sp):
+    if fname in ELEMENT_SIGMA and not util.is_pspace(sp) and not util.space_complex(sp):
+        # (one step per point on complex spaces: neither an element of the space nor of its real counterpart is accepted by
+        # the factories - they raise TypeError; a refusal, recorded in DESIGN.md, not exercised)
         yield 'element', functab.pos_el(sp, rng, 0.2, 2.0)
     if 'SeparableSum' in fname and 'convex_conj' not in fname and util.is_pspace(sp):
         yield 'per-component', [0.4, 1.3][:len(sp)] if len(sp) <= 2 else [0.4, 1.3, 0.7][:len(sp)]
@@ -363,7 +374,7 @@ def run(ctx):
     rng = ctx.rng('c07')
     crng = ctx.crng('ctor')
     i = 0
-    recipes = list(functab.all_functionals(crng, ctx.thorough))
+    recipes = list(functab.all_functionals(crng, ctx.thorough, with_complex=True))
     # a low-dimensional space for the independent minimiser
     r3 = odl.rn(3, weighting=1.5)
     for fname, thunk, tags in functab.funcs(r3, crng):
